@@ -1,6 +1,7 @@
 """C16 — async readers/writers = sync counterparts: twin comparison (A9)."""
 import json
 import os
+import re
 
 from .. import a9
 from .. import cfg as C
@@ -158,6 +159,16 @@ def run(ctx):
     from .c02 import stamp_position_rule
     stamp_position_rule(ctx, "C16.R3", ("noodles_bgzf::r#async::io::reader::", "<noodles_bgzf::r#async::io::reader::"), 2)
 
+    ctx.rule("C16.R4", "poll_* functions: a value drained from the receiver's state (split / take / next) is stored back or handed to the "
+                       "sink before any Poll::Pending return (Pending drops the locals; the sync twin has no such exit)")
+    drained_value_rule(ctx, "C16.R4", ("noodles_", "<noodles_"), 3)
+
+    ctx.rule("C16.R5", "poll_seek state machine of the async BGZF reader: from its resting state every way to Ready(Ok) passes the arm that "
+                       "seeks the inner reader (the sync seek has no memory of earlier requests)")
+    state_machine_action_rule(ctx, "C16.R5", "noodles_bgzf::r#async::io::reader::Reader::<R>::poll_seek", "noodles_bgzf::r#async::io::reader::SeekState",
+                              r"inflater::Inflater::<R>::poll_seek$", ["noodles_bgzf::r#async::io::reader::builder::Builder::build_from_reader"],
+                              "seeking the inner block reader")
+
 
 def _uncounted(t):
     t = tuple(str(x) for x in t)
@@ -204,10 +215,23 @@ def _store_before_pending(f):
     return None
 
 
+def _ptr_def(f, local):
+    """The single whole definition of a local; stores THROUGH it (`(*p).f = v`) do not redefine the pointer."""
+    whole, part = [], []
+    for x in C.defs(f).get(local, []):
+        if x[0] in ("=", "call", "yield"):
+            whole.append(x)
+        elif x[0] == "partial" and not (x[4][1] and x[4][1][0] == "*"):
+            part.append(x)
+        elif x[0] == "partial-call" and not (x[2]["dest"][1] and x[2]["dest"][1][0] == "*"):
+            part.append(x)
+    return whole[0] if len(whole) == 1 and not part else None
+
+
 def _through_self(f, local):
     if local == 1:
         return True
-    d = C.single_def(f, local)
+    d = _ptr_def(f, local)
     seen = 0
     while d is not None and seen < 8:
         seen += 1
@@ -217,15 +241,208 @@ def _through_self(f, local):
                 return False
             if pl[0] == 1:
                 return True
-            d = C.single_def(f, pl[0])
+            d = _ptr_def(f, pl[0])
         elif d[0] == "call":
             args = d[2]["args"]
             if args and C.op_local(args[0]) is not None:
                 if C.op_local(args[0]) == 1:
                     return True
-                d = C.single_def(f, C.op_local(args[0]))
+                d = _ptr_def(f, C.op_local(args[0]))
             else:
                 return False
         else:
             return False
     return False
+
+
+# ------------------------------------------------------------------------------------------------ drained values
+import re as _re
+
+DRAIN_RX = _re.compile(r"(BytesMut::split|BytesMut::split_to|BytesMut::split_off|mem::take|mem::replace|Option::<T>::take|::drain|"
+                       r"::split_off|::pop_front|::pop_back|VecDeque::<T, A>::pop|Vec::<T, A>::pop|Iterator>::next)$")
+
+
+def _forward_derived(f, seed):
+    """Locals whose value is built from `seed` (moves, copies, projections, aggregates, results of calls that are handed it)."""
+    der = {seed}
+    changed = True
+    while changed:
+        changed = False
+        for bi, blk in enumerate(f.blocks):
+            if blk.get("cu"):
+                continue
+            for st in blk["s"]:
+                if st[0] != "=" or st[1][1]:
+                    continue
+                if st[1][0] in der:
+                    continue
+                if any(l in der for op in R.rvalue_operands(st[2]) for l in R.operand_locals(op)):
+                    der.add(st[1][0])
+                    changed = True
+            t = blk["t"]
+            if t[0] == "call":
+                c = t[1]
+                d = c.get("dest")
+                if d is not None and not d[1] and d[0] not in der and d[0] != 0:
+                    if any(a[0] == "m" and C.op_local(a) in der for a in c["args"]):
+                        der.add(d[0])
+                        changed = True
+    return der
+
+
+def drained_value_rule(ctx, rule, scope, floor):
+    """In a hand-written poll function, a value moved OUT of the receiver's state (split / take / drain / pop / next) must be handed
+    back (stored into the receiver, or moved into a call that also gets the receiver's state) before the function can return
+    Poll::Pending: the local that holds it is dropped on that return and the next poll finds the state already emptied."""
+    fb = ctx.fb
+    n = 0
+    for k, f in sorted(fb.fns.items()):
+        if not k.startswith(scope) or not f.blocks or f.is_closure:
+            continue
+        pend = [b for b, kind in C.exit_points(f) if kind == "pending"]
+        if not pend:
+            continue
+        for bi, c in f.calls():
+            fk = c.get("f") or ""
+            if not DRAIN_RX.search(fk) or not c["args"]:
+                continue
+            recv = C.op_local(c["args"][0])
+            if recv is None or not _through_self(f, recv):
+                continue
+            d = c.get("dest")
+            if d is None or d[1]:
+                continue
+            n += 1
+            ctx.saw_fn(f)
+            der = _forward_derived(f, d[0])
+            consume = set()
+            for bj, blk in enumerate(f.blocks):
+                if blk.get("cu"):
+                    continue
+                for st in blk["s"]:
+                    if st[0] == "=" and st[1][1] and _through_self(f, st[1][0]) and \
+                            any(l in der for op in R.rvalue_operands(st[2]) for l in R.operand_locals(op)):
+                        consume.add(bj)
+                t = blk["t"]
+                if t[0] == "call" and bj != bi:
+                    c2 = t[1]
+                    moved = any(a[0] == "m" and C.op_local(a) in der for a in c2["args"])
+                    # the call can keep the value only if it is also handed a mutable pointer into the receiver's state
+                    state = any(C.op_local(a) is not None and C.op_local(a) not in der and "&mut " in f.locals[C.op_local(a)]
+                                and _through_self(f, C.op_local(a)) for a in c2["args"])
+                    d2 = c2.get("dest")
+                    into_self = d2 is not None and d2[1] and _through_self(f, d2[0])
+                    if moved and (state or into_self):
+                        consume.add(bj)
+            nxt = c.get("t")
+            reach = C.reachable(f, nxt, removed=consume) if nxt is not None and nxt not in consume else set()
+            lost = [p for p in pend if p in reach]
+            what = "%s :: %s" % (k, fk.split("::")[-1])
+            if lost:
+                ctx.violation(rule, "%s/drained-then-pending/%s/%s" % (rule, k, fk.split("::")[-1]),
+                              "%s moves a value out of its own state with %s and can then return Poll::Pending before the value is stored "
+                              "back or handed to the sink: the local is dropped on that return and the bytes/state it held are lost; the next "
+                              "poll sees the state already emptied" % (k, fk.split("::")[-1]), f.loc(lost[0]))
+            else:
+                ctx.ok(rule, what, "every path from the drain to a Pending return stores the value back or hands it on (%d hand-over block(s))" % len(consume), f.loc(bi))
+    ctx.floor(rule, "drains of receiver state inside functions that can return Pending", n, floor)
+
+
+# ------------------------------------------------------------------------------------------------ explicit state machines
+def state_machine_action_rule(ctx, rule, fkey, enum_key, action_rx, init_fn_keys, what):
+    """An explicit `match state { .. }` machine inside a poll function: every chain of arms from a RESTING state (the state the
+    machine is constructed in, or the one it is left in when it returns Ready(Ok)) to a Ready(Ok) return passes an arm that
+    performs the action. A resting state whose own arm can answer Ready(Ok) without the action answers a NEW request from the
+    memory of an old one (defect F29: `Done(p)` with `pos == p`)."""
+    fb = ctx.fb
+    f = ctx.body(rule, fkey)
+    adt = fb.adts.get(enum_key)
+    if f is None:
+        return
+    if adt is None:
+        ctx.violation(rule, "%s/ANCHOR-MISSING/%s" % (rule, enum_key), "state enum %s not found" % enum_key, f.loc())
+        return
+    names = {v["discr"]: v["name"] for v in adt["variants"]}
+    # the switch over the state's discriminant
+    head = None
+    for bi, blk in enumerate(f.blocks):
+        t = blk["t"]
+        if blk.get("cu") or t[0] != "sw":
+            continue
+        cond = C.switch_condition(f, bi)
+        if cond and cond[0] == "discr":
+            l = cond[1][0]
+            if not cond[1][1] and enum_key.split("::")[-1] in f.locals[l] and "Option<" not in f.locals[l].split(enum_key.split("::")[-1])[0][-8:]:
+                head = (bi, t)
+                break
+    if head is None:
+        ctx.violation(rule, "%s/ANCHOR-MISSING/%s/switch" % (rule, fkey), "%s no longer switches over the discriminant of %s" % (fkey, enum_key), f.loc())
+        return
+    hb, t = head
+    arms = {}
+    for val, tgt in t[2]:
+        arms[names.get(val, str(val))] = tgt
+    covered = set(arms)
+    rest = [v["name"] for v in adt["variants"] if v["name"] not in covered]
+    if rest and t[3] is not None and len(rest) == 1:
+        arms[rest[0]] = t[3]
+    ok_exits = {b for b, k in C.exit_points(f) if k == "ok"}
+    info = {}
+    for v, tgt in arms.items():
+        region = C.reachable(f, tgt, removed={hb})
+        acts = [b for b in region if f.blocks[b]["t"][0] == "call" and re.search(action_rx, f.blocks[b]["t"][1].get("f") or "")]
+        built = set()
+        for b in region:
+            for st in f.blocks[b]["s"]:
+                if st[0] == "=" and st[2][0] == "agg" and st[2][1] == "adt" and st[2][2] == enum_key:
+                    built.add((st[2][3], b))
+        # an Ok exit of the arm counts only when it can be reached without the action of the same arm
+        free = C.reachable(f, tgt, removed={hb} | set(acts))
+        info[v] = {"action": bool(acts), "next": built, "ok_free": sorted(ok_exits & free), "ok_any": sorted(ok_exits & region)}
+    resting = set()
+    for ik in init_fn_keys:
+        g = fb.fns.get(ik)
+        if g is None:
+            ctx.violation(rule, "%s/ANCHOR-MISSING/%s" % (rule, ik), "constructor %s not found" % ik, f.loc())
+            continue
+        ctx.saw_fn(g)
+        for blk in g.blocks:
+            for st in blk["s"]:
+                if st[0] == "=" and st[2][0] == "agg" and st[2][1] == "adt" and st[2][2] == enum_key:
+                    resting.add(st[2][3])
+    for v, d in info.items():
+        if d["ok_any"]:
+            # the state stored on the way to that Ok return is where the machine rests between two requests
+            for nv, b in d["next"]:
+                if any(e in C.reachable(f, b, removed={hb}) for e in d["ok_any"]):
+                    resting.add(nv)
+    if not resting:
+        ctx.violation(rule, "%s/ANCHOR-MISSING/%s/resting" % (rule, fkey), "no resting state of %s found" % enum_key, f.loc())
+        return
+    bad = None
+    for r in sorted(resting):
+        seen = set()
+        stack = [(r, (r,))]
+        while stack and bad is None:
+            v, path = stack.pop()
+            if v in seen or v not in info:
+                continue
+            seen.add(v)
+            d = info[v]
+            if d["ok_free"]:
+                bad = (path, d["ok_free"][0])
+                break
+            if d["action"]:
+                continue
+            for nv, _b in d["next"]:
+                stack.append((nv, path + (nv,)))
+        if bad:
+            break
+    if bad:
+        ctx.violation(rule, "%s/answers-without-action/%s/%s" % (rule, fkey, "->".join(bad[0])),
+                      "%s: starting from its resting state the machine can return Ready(Ok) through the arms %s without %s: a new request is "
+                      "answered from the memory of an earlier one" % (fkey, " -> ".join(bad[0]), what), f.loc(bad[1]))
+    else:
+        ctx.ok(rule, "%s :: resting state(s) %s" % (fkey, ", ".join(sorted(resting))),
+               "every chain of arms from a resting state to Ready(Ok) passes an arm that calls %s (arms: %s)" % (
+                   what, "; ".join("%s%s->%s" % (v, "*" if d["action"] else "", ",".join(sorted({n for n, _ in d["next"]})) or "-") for v, d in sorted(info.items()))), f.loc(hb))
